@@ -6,7 +6,7 @@ def register(PROPS):
         'engine': 'E2',
         'level': 'fault_enumeration',
         'technique': 'exhaustive crash-point and single-fault enumeration over every spool system call of every checkpoint in bounded command histories, restart replayed on a pristine daemon image',
-        'claim': 'Every history up to the stated depth over {ADD/replace (3 payload sizes: checkpoint needs 1, 2 or 3 write calls), CANCEL} for two '
+        'claim': 'Every history up to the stated depth over {ADD/replace (3 payload sizes: checkpoint needs 1, 2 or 3 write calls), CANCEL, and two-instruction requests whose first instruction succeeds and whose last is refused} for two '
                  'users and two UIDs, optionally with undisturbed CHKPT/LIST steps in between, is executed on the embedded echsd; at every reached '
                  'state each checkpoint-bearing event (CHKPT timer, GET /queue of either user, SHUTDOWN) is run (a) undisturbed with the spool '
                  'snapshotted before every intercepted call (openat, each write, close, renameat, unlinkat) and at the end, and (b) once per call '
